@@ -41,6 +41,23 @@ CLAIMS = {
   'text': 'Proved for the six real RCU list/hlist update primitives on symbolic neighbourhoods: exactly one store to the reader-visible next field, through a primitive (release for publications), the new node fully linked before that store, a removed/replaced node\'s next left intact, sequential doubly-linked result. Apart (bounded): all five reader macros traverse lists of <= 3 entries while an updater runs up to two real primitives between any two reader loads: termination, only real entries, list order, none twice, entries present throughout exactly once, initialised contents.',
   'note': 'Assumed: sequential meaning of primitives; updater primitives atomic w.r.t. the reader (justified by the one-visible-store obligations). Not decided: freed-after-grace-period safety (C01); unbounded list length under concurrency.',
  },
+ 'C01': {
+  'category': 'other',
+  'text': 'Contracts on the real reader and updater code of all four flavors, proved for all inputs: reader-state classification = spec over all (word, gp.ctr) pairs with a single snapshot; rcu_read_lock/unlock (memb, mb, bp) and quiescent_state/offline/online (qsbr) word arithmetic (nesting +-1, phase kept, snapshot on outermost lock) and the fences x86-TSO formally needs around the reader-word store; protocol skeleton automaton of each synchronize_rcu (locks, mb_master, scan, exactly one phase toggle / counter increment, scan, splice, mb_master, unlock order, leader takes the waiters before examining readers and wakes them last, bp signal masking, qsbr offline/online of the caller). Bounded: the registry scan wait_for_readers under arbitrary reader words never retires a reader observed OLD. The step from these premises to the grace-period theorem is a pencil-and-paper argument.',
+  'note': 'Assumed: sequential meaning/event kinds of the primitives, x86-TSO (only store->load pairs need a full barrier), pthread/futex stubs; scan bounded to <= 2 readers, <= 3 passes with the spin constant reduced by a scratch rewrite. Not decided: the grace-period guarantee over all interleavings.',
+  'technique': 'contract-based deductive verification (CBMC function contracts, ghost event automata) of per-function premises; bounded scan harness',
+ },
+ 'C02': {
+  'category': 'other',
+  'text': 'Liveness cannot be decided by contracts; decided instead, for all inputs, are the per-function obligations of the sleep/wake handshake: reader side (C01 obligations: store -> full barrier -> futex/waiting test, wake iff -1), updater side (bounded scan: sleeps only after arm -> mb_master -> full re-scan with a reader still OLD; futex reset), futex-wait loops (wait_gp of urcu.c and urcu-qsbr.c, urcu_adaptative_busy_wait) under an adversarial futex (spurious 0, EINTR, EAGAIN, ENOSYS, other errno) and an arbitrary waker: return only after the word changed, FUTEX_WAIT only on the sleep value right after loading it, unexpected errno fatal, lock dropped while sleeping; ENOSYS fallback never sleeps on the compat condition variable.',
+  'note': 'Partial correctness only: termination under fair schedules is not decided. Busy-wait loops unwound (longer spins repeat the same states); spin constant reduced in the quick tier. Futex/poll/condvar behaviour as in the stubs.',
+  'technique': 'contract-based deductive verification of the handshake obligations (CBMC, ENV-mode harnesses with adversarial futex stub)',
+ },
+ 'C19': {
+  'category': 'proof',
+  'text': 'For memb, mb and bp: (A) the contract of a signal handler doing rcu_read_lock(); rcu_read_unlock() on the interrupted thread - nesting and, inside a critical section, the whole reader word restored, rcu_read_ongoing() unchanged - is proved with further handlers (same contract, --enforce-contract-rec: any nesting depth) and the updater (phase flips, futex armed) running before each of its shared accesses; (B) rcu_read_lock/rcu_read_unlock interrupted before every shared access - including between the plain read of the reader word and the store derived from it - by handlers satisfying that contract keep their postcondition for every reader word.',
+  'note': 'Assumed: atomicity of single aligned word accesses (granularity = one C-level access), sequential meaning of the primitives, futex wrapper contract, nesting below the documented limit. Not covered here: handlers inside synchronize_rcu/call_rcu (they only touch the reader word and gp.futex; stated, not proved), bp registration under blocked signals (C15). The handler\'s own section gets the C01 guarantee only as far as C01 is decided.',
+ },
 }
 for i in range(1, 21):
     k = 'C%02d' % i
